@@ -41,6 +41,20 @@ __all__ = [
 ]
 
 
+def _select(mask: torch.Tensor, old_v, cur_v):
+    """Entry-wise `old_v` where `mask` else `cur_v`, for tensors and weighted tensors."""
+    if isinstance(old_v, WeightedTensor) or isinstance(cur_v, WeightedTensor):
+        old_w = old_v if isinstance(old_v, WeightedTensor) else WeightedTensor(old_v)
+        cur_w = cur_v if isinstance(cur_v, WeightedTensor) else WeightedTensor(cur_v)
+        value = torch.where(mask, old_w.value, cur_w.value)
+        if old_w.weight is None and cur_w.weight is None:
+            return WeightedTensor(value)
+        old_wgt = old_w.weight if old_w.weight is not None else cur_w.weight
+        cur_wgt = cur_w.weight if cur_w.weight is not None else old_w.weight
+        return WeightedTensor(value, torch.where(mask, old_wgt, cur_wgt))
+    return torch.where(mask, old_v, cur_v)
+
+
 class StateForkType(Enum):
     """
     The strategy used to cache forked values in :class:`.State`.
@@ -558,7 +572,6 @@ class State(MutableMapping):
             self._last_fork = None
             return
         to_revert = subset.to(torch.bool)
-        to_keep = ~to_revert
         for k, old_v in self._last_fork.items():
             cur_v = self._values[k]
             if old_v is None or cur_v is None:
@@ -567,13 +580,13 @@ class State(MutableMapping):
                 assert (
                     old_v.shape == cur_v.shape
                 ), f"Bad shapes for {k}: {old_v.shape} != {cur_v.shape}"
+                mask = to_revert
                 if right_broadcasting:
                     add_ndim = max(old_v.ndim - to_revert.ndim, 0)
-                    self._values[k] = old_v * unsqueeze_right(
-                        to_revert, ndim=add_ndim
-                    ) + cur_v * unsqueeze_right(to_keep, ndim=add_ndim)
-                else:
-                    self._values[k] = old_v * to_revert + cur_v * to_keep
+                    mask = unsqueeze_right(to_revert, ndim=add_ndim)
+                # selection, not `old * mask + cur * ~mask`: a non-finite value on the
+                # discarded side (inf * 0, nan * 0) must not leak into the kept one
+                self._values[k] = _select(mask, old_v, cur_v)
         self._last_fork = None
 
     def to_device(self, device: torch.device) -> None:
